@@ -41,7 +41,7 @@ func strFromIndex(idx int64, alphabet []string, n int) string {
 }
 
 func runC11(e *Env) {
-	e.Rule = "(a) totality + (b) reflexivity: ALL strings up to length 5 (quick) / 7 (thorough) over {'/',' ','.','a','b','\\t'} as registered path, group prefix (top level and nested inside another group) and request path (GET and HEAD), both StrictLastSlash settings: GET/Group/Match/ServeHTTP never panic and a static route registered as P is found by a request for the very same P; (c) equivalence on the unambiguous sub-language ws* '/'* core '/'* ws*: sampled pairs (P,Q) incl. group prefixes: route(P) is reached by Q iff N(P)==N(Q), Route.Path()==N(P), strict mode distinguishes '/a' from '/a/'; (d) path source: request targets with %41/%2F/%20 escapes parsed like a server does, routes registered under the decoded and under the escaped spelling + a dynamic route: default router matches URL.Path, UseEncodedPath matches URL.EscapedPath() (in a third of the cases only the decoded spelling is registered: the escaped request then finds no static route). Non-trivial: string with white space or repeated/trailing slashes or an escape; distinct by string (pair). Non-ASCII white space is part of the alphabet; a Controller registered under a prefix yields the same route path as a Group under that prefix (both strict settings); for strings outside the documented sub-language the two entry points must still agree (Match reaches the route iff ServeHTTP does, also for the stored path itself)."
+	e.Rule = "(a) totality + (b) reflexivity: ALL strings up to length 5 (quick) / 7 (thorough) over {'/',' ','.','a','b','\\t'} as registered path, group prefix (top level and nested inside another group) and request path (GET and HEAD), both StrictLastSlash settings: GET/Group/Match/ServeHTTP never panic and a static route registered as P is found by a request for the very same P; (c) equivalence on the unambiguous sub-language ws* '/'* core '/'* ws*: sampled pairs (P,Q) incl. group prefixes: route(P) is reached by Q iff N(P)==N(Q), Route.Path()==N(P), strict mode distinguishes '/a' from '/a/'; (d) path source: request targets with %41/%2F/%20 escapes parsed like a server does, routes registered under the decoded and under the escaped spelling + a dynamic route: default router matches URL.Path, UseEncodedPath matches URL.EscapedPath() (in a third of the cases only the decoded spelling is registered: the escaped request then finds no static route). Non-trivial: string with white space or repeated/trailing slashes or an escape; distinct by string (pair). Non-ASCII white space and a literal '?' (a path character once the target is parsed) are part of the alphabet; a Controller registered under a prefix yields the same route path as a Group under that prefix (both strict settings); for strings outside the documented sub-language the two entry points must still agree (Match reaches the route iff ServeHTTP does, also for the stored path itself)."
 	e.Assumptions = []string{
 		"strings where white space touches the stripped slashes (e.g. 'a /') are only checked for totality and reflexivity: the documented rule does not fix their normal form",
 		"only ASCII white space is generated",
@@ -169,7 +169,7 @@ func runC11(e *Env) {
 			n := r.IntN(8)
 			var b strings.Builder
 			for i := 0; i < n; i++ {
-				b.WriteString(pick(r, []string{"/", "/", " ", ".", "a", "b", "\t", "ab", "/", "a", "\u00a0", "\u2028"}))
+				b.WriteString(pick(r, []string{"/", "/", " ", ".", "a", "b", "\t", "ab", "/", "a", "\u00a0", "\u2028", "?", "?b"}))
 			}
 			return b.String()
 		}
@@ -178,7 +178,9 @@ func runC11(e *Env) {
 		if chance(r, 1, 2) {
 			// derive Q from P by a normalisation-preserving or a minimal breaking edit
 			Q = P
-			switch r.IntN(7) {
+			switch r.IntN(8) {
+			case 7:
+				Q = Q + pick(r, []string{"?", "?a=b", "?/"}) // a literal '?' (sent as %3F) is a path character like any other
 			case 0:
 				Q = pick(r, []string{" ", "\u3000", ""}) + Q + pick(r, []string{"\t", "\u00a0", "\u0085", " \u2028"})
 			case 1:
@@ -298,7 +300,9 @@ func runC11(e *Env) {
 			return
 		}
 		// the same literal text as the prefix of a route with a variable: reached by exactly the same prefixes
-		if G == "" && wantPath != "/" && !strings.HasSuffix(wantPath, "/") && !strings.HasSuffix(nq, "/") {
+		// ('?' is pattern syntax in the literal text of a route with variables, like the other regex
+		// metacharacters except '.': outside the documented pattern language, not judged)
+		if G == "" && !strings.Contains(wantPath+nq, "?") && wantPath != "/" && !strings.HasSuffix(wantPath, "/") && !strings.HasSuffix(nq, "/") {
 			rd := rux.New(c11Opts(strict, false)...)
 			var dyn *rux.Route
 			if _, panicked := catch(func() { dyn = rd.GET(wantPath+"/{id}", namedHandler("dyn")) }); panicked || dyn == nil {
